@@ -20,7 +20,25 @@ def scenario(e3, n_inst, n_read, name):
     P = _e3.program(["metrics"])
     set_b = P.find("RecorderOnceCell", "set")
     load_b = P.find("RecorderOnceCell", "try_load")
-    eng = sym.Engine(P, models=dict(models.BASE))
+    # drop accounting: dropping a Box<R> (by `drop(box)`, mem::drop or going out of scope) finalises the recorder inside it
+    def box_dropped(eng_, ctx, v):
+        if isinstance(v, Ptr) and v.root[0] == "obj" and eng_.objs.get(v.root[1]) == "Box":
+            val = ctx.mem_read(v.root[1], (), 64, False, "NA", "drop_box")
+            ctx.observe("recorder_dropped", value=val, box=v.root[1])
+
+    def m_drop_hook(eng_, ctx, f, v, ty):
+        if ty and ty.strip().startswith("Box<"):
+            box_dropped(eng_, ctx, v)
+        return None
+
+    def m_mem_drop(eng_, ctx, f, path, args, dty):
+        box_dropped(eng_, ctx, args[0])
+        return sym.UNIT
+    m = dict(models.BASE)
+    m["__drop__"] = m_drop_hook
+    m[r"^(std|core)::mem::drop$"] = m_mem_drop
+    eng = sym.Engine(P, models=m)
+    eng.drop_impls = True            # Drop impls of /repo types (e.g. a guard inside `set`) run as real MIR
     c0 = sym.Ctx(eng, 0)
     eng.thread_names[0] = "setup"
     cell = c0.alloc("RecorderOnceCell", {(0,): ("ptr", z3.IntVal(0)), (1,): (64, bv(0))})
@@ -77,6 +95,15 @@ def scenario(e3, n_inst, n_read, name):
         first_b = min(e.id for e in eng.events if e.tid == b)
         props.append(("once_seen_always_seen", "an emission that starts after another one was dispatched to the recorder falls back to the no-op recorder or another recorder",
                       z3.And(some(a), last_a < sc.clock[first_b], z3.Or(z3.Not(some(b)), ptr(b) != ptr(a))), None))
+    # no recorder is finalised by the library: neither the winner's (it lives for the rest of the process) nor a loser's (handed back)
+    drops = []
+    for ls in eng.leaves.values():
+        for l in ls:
+            for lab, e, pl in l.obs:
+                if lab == "recorder_dropped":
+                    drops.append(e.guard)
+    props.append(("no_recorder_dropped_by_the_library", "set() drops a recorder: the rejected one before handing it back (the caller then holds a finalised value), or the installed one",
+                  z3.Or(*drops) if drops else z3.BoolVal(False), None))
     race, extra = sc.race_condition()
     props.append(("no_data_race_on_cell_or_recorder", "two conflicting accesses (one non-atomic) unordered by release/acquire happens-before", race, extra))
     bounds = f"{n_inst} concurrent installers, {n_read} concurrent emitters, every interleaving of their atomic and plain accesses; {sc.stats}"
